@@ -3,6 +3,7 @@ package interp
 import (
 	"fmt"
 	"go/types"
+	"os"
 	"strconv"
 	"strings"
 
@@ -211,6 +212,11 @@ func buildNatives() map[string]nativeFn {
 		return in.uninterpNum("time.ParseDuration", a[0].(Str), in.C.Const(64, 0), fn)
 	}
 	m["bytes.Replace"] = nativeBytesReplace
+	// sort.Slice / sort.SliceStable go through reflection (reflectlite.Swapper):
+	// modelled as a stable insertion sort that calls the real less closure on
+	// the real backing array (element moves are logged as stores).
+	m["sort.SliceStable"] = nativeSortSlice
+	m["sort.Slice"] = nativeSortSlice
 	m["regexp.MustCompile"] = nativeRegexpCompile
 	m["(*regexp.Regexp).Match"] = nativeRegexpMatch
 	m["(*regexp.Regexp).FindIndex"] = nativeRegexpFindIndex
@@ -533,6 +539,39 @@ func (in *Interp) symStrToGo(s Str) string {
 		b[i] = byte(in.concretize(t, "byte of formatted string"))
 	}
 	return string(b)
+}
+
+func nativeSortSlice(in *Interp, fn *ssa.Function, a []Value) Value {
+	if os.Getenv("GOSYM_NOSORTMODEL") != "" {
+		// self-test switch: behave as if the operation were not encoded
+		panic(in.unenc("sort.Slice (model switched off)"))
+	}
+	ifc, ok := a[0].(Iface)
+	if !ok {
+		panic(in.unenc("sort.Slice on a non-interface value"))
+	}
+	sl, ok := ifc.V.(Slice)
+	if !ok {
+		panic(in.unenc("sort.Slice on a non-slice"))
+	}
+	less := func(i, j int) bool {
+		r := in.callValue(a[1], []Value{in.C.Const(64, uint64(i)), in.C.Const(64, uint64(j))})
+		t, ok := r.(*smt.Term)
+		if !ok {
+			panic(in.unenc("sort.Slice: less did not return a bool term"))
+		}
+		return in.decide(t)
+	}
+	// insertion sort by adjacent swaps: every comparison is less(j, j-1) on
+	// the current contents, as the library contract allows
+	for i := 1; i < sl.Len; i++ {
+		for j := i; j > 0 && less(j, j-1); j-- {
+			x, y := sl.A.E[sl.Off+j], sl.A.E[sl.Off+j-1]
+			in.logStore(sl.A.O, fn.Pos(), false)
+			sl.A.E[sl.Off+j], sl.A.E[sl.Off+j-1] = y, x
+		}
+	}
+	return nil
 }
 
 // bytes.Replace(s, old, new, n) for concrete old/new, symbolic s.
